@@ -159,7 +159,7 @@ func BuildOpt(t *gen.Tools, pool *gen.Pool, tag string, items []*Item, race bool
 	os.MkdirAll(filepath.Join(root, "drv"), 0o777)
 	os.WriteFile(filepath.Join(root, "drv", "main.go"), buf.Bytes(), 0o666)
 	c.Bin = filepath.Join(root, "drv.bin")
-	args := []string{"build", "-o", c.Bin}
+	args := []string{"build", "-trimpath", "-o", c.Bin}
 	if race {
 		args = append(args, "-race")
 	}
